@@ -196,6 +196,17 @@ def qmAdd (s1 s2 so : Nat) (leftShift : Nat) : Option ((Int × Int) × (Int × I
   let (c, ec) ← roundTo 53 mx mo (ex + 1 - eo - leftShift)
   some (quantizeMultiplierOf 53 a ea, quantizeMultiplierOf 53 b eb, quantizeMultiplierOf 53 c ec)
 
+/-- the three multipliers of SQUARED_DIFFERENCE: `s1 / (2 max)`, `s2 / (2 max)`, `(2 max)² / (2^(2·leftShift) · so)` in double -/
+def qmSquaredDifference (s1 s2 so : Nat) (leftShift : Nat) : Option ((Int × Int) × (Int × Int) × (Int × Int)) := do
+  let (m1, e1) ← f32Decode s1
+  let (m2, e2) ← f32Decode s2
+  let (mo, eo) ← f32Decode so
+  let (mx, ex) := if s1 ≥ s2 then (m1, e1) else (m2, e2)
+  let (a, ea) ← roundTo 53 m1 mx (e1 - ex - 1)
+  let (b, eb) ← roundTo 53 m2 mx (e2 - ex - 1)
+  let (c, ec) ← roundTo 53 (mx * mx) mo (2 * (ex + 1) - eo - 2 * leftShift)
+  some (quantizeMultiplierOf 53 a ea, quantizeMultiplierOf 53 b eb, quantizeMultiplierOf 53 c ec)
+
 /-- `round(float(f) / scale)` with float32 division and round-half-away-from-zero, for f = num (a small
     non-negative integer); the caller negates for negative f -/
 def quantizeSmall (f : Nat) (scale : Nat) : Option Int := do
